@@ -292,6 +292,17 @@ def run(ctx):
         for ff in okff:
             jobs.append({"id": len(jobs) + 1, "klass": f"strand {kind} {s_}", "args": [f"--ff={ff}"], "fs0": "absent", "fault": None, "kind": "success",
                          "input": "TEXT:" + gen.pdb_text([gen.nucleic(s_, kind), gen.water((20, 14, 4), resseq=101)])})
+    # the same strands as deposited today: phosphate oxygens named OP1 / OP2 (wwPDB remediation), and with the solvent listed
+    # under the strand's own chain identifier
+    v3 = lambda at: [dict(a, name={"O1P": "OP1", "O2P": "OP2"}.get(a["name"], a["name"])) for a in at]
+    for kind, s_, okff in (("D", "ACGT", ["AMBER", "CHARMM", "TYL06"]), ("R", "ACGU", ["AMBER", "CHARMM", "TYL06", "PARSE"]), ("D", "AT", ["CHARMM"])):
+        for ff in okff:
+            jobs.append({"id": len(jobs) + 1, "klass": f"strand {kind} {s_} with OP1/OP2 names", "args": [f"--ff={ff}"], "fs0": "absent", "fault": None,
+                         "kind": "success", "input": "TEXT:" + gen.pdb_text([v3(gen.nucleic(s_, kind)), gen.water((20, 14, 4), resseq=101)])})
+            jobs.append({"id": len(jobs) + 1, "klass": f"strand {kind} {s_} followed by waters of the same chain", "args": [f"--ff={ff}"], "fs0": "absent",
+                         "fault": None, "kind": "success",
+                         "input": "TEXT:" + gen.pdb_text([gen.nucleic(s_, kind) + gen.water((20, 14, 4), chain="N", resseq=101) +
+                                                          gen.water((-9, 10, 8), chain="N", resseq=102)])})
     # complete structures written under the alternative atom spellings the topology declares
     for style in (0, 1):
         for ff in ffs:
